@@ -21,6 +21,7 @@ var Registry = map[string]func() int{
 	"C15": C15,
 	"C16": C16,
 	"C17": C17,
+	"C18": C18,
 }
 
 func IDs() []string {
